@@ -118,6 +118,15 @@ def constant_value(expression, bindings=None):
                 expression.type.which_type
             )
     elif expression.which_expression == "function":
+        if expression.function.function in (
+            ir_data.FunctionMapping.UPPER_BOUND,
+            ir_data.FunctionMapping.LOWER_BOUND,
+        ):
+            # $upper_bound() and $lower_bound() are computed by expression_bounds;
+            # their value is only available from the type annotation.
+            if expression.type.integer.modulus == "infinity":
+                return int(expression.type.integer.modular_value)
+            return None
         return _constant_value_of_function(expression.function, bindings)
     elif expression.which_expression == "field_reference":
         return None
